@@ -381,8 +381,16 @@ class DataOps:
         if axis == 'time':
             ks = sorted(k for k in d.keys() if _scalar_valued(d[k]))
             by = ks[o['a'][0] % len(ks)]
+        if axis == 'obs' and o['a'][5] % 5 == 0:
+            # a split by a descriptor with missing (NaN) entries: the rows without a value form a part of their own, no row
+            # is lost
+            nan_keys = sorted(k for k, v in d.items() if isinstance(v, np.ndarray) and v.ndim == 1 and v.dtype.kind == 'f'
+                              and np.isnan(v).any() and not np.isnan(v).all())
+            if nan_keys:
+                by = nan_keys[0]
+                self.ctx.probe('split_by_descriptor_with_nan')
         vals = normlist(d[by])
-        if len({type(v) for v in vals}) != 1:
+        if len({type(v) for v in vals if v != 'NaN'}) != 1:
             return False
         try:
             parts = getattr(obj, 'split_' + axis)(by)
